@@ -109,6 +109,17 @@ class Extract:
                     continue
                 start = blk[0][2]
                 if any(v % 16 for v in start.t.values()) or start.c % 16:
+                    # a running offset instead of a block counter: the block index is offset / 16 when the offset is
+                    # proven a multiple of 16 (stride invariant of the loop)
+                    q_, r_ = self.eng.divmod_const(b, start, 16)
+                    if not self.eng.ent(b, c_eq(r_, Lin.const(0))):
+                        continue
+                    item = q_ + 1
+                    back = sem_back
+                    if back is None:
+                        continue
+                    out.append({"order": i, "head": lp["head"], "lid": lp["lid"], "done": lp["done"], "state": b, "md5": ms[-1], "item": VInt(None, item), "back": back,
+                                "H": lp["H"], "range": None, "loop": lp, "start": start})
                     continue
                 item = Lin({s_: v // 16 for s_, v in start.t.items()}, start.c // 16 + 1)
                 back = None
@@ -167,10 +178,12 @@ def plaintext_facts(eng, X, dests):
             f["lp"] = lp[0] if lp else None
             f["ap"] = ap[0] if ap else None
             f["order_ok"] = [("lp" if s in lp else "ap" if s in ap else "?") for s in rest] in (["lp", "ap"], ["lp"])
-            if not (lenf[0] == "be" and lenf[2] == 2 and isinstance(lenf[1], VInt)):
+            import layout
+            be = layout.as_be(eng, st, lenf)        # a to_be_bytes result, or two computed octets that rejoin to a value
+            if be is None or be[1] != 2:
                 f["problems"].append("plaintext does not start with a 16-bit big-endian length")
-            elif not eng.ent(st, c_eq(lenf[1].lin, body + 6)):
-                f["problems"].append("original-length subfield %r is not 6 + |value| (%r)" % (lenf[1].lin, body))
+            elif not eng.ent(st, c_eq(be[0], body + 6)):
+                f["problems"].append("original-length subfield %r is not 6 + |value| (%r)" % (be[0], body))
             if not lp:
                 f["problems"].append("length padding not in the plaintext")
             if not f["order_ok"]:
